@@ -60,6 +60,7 @@ def gen(rng: random.Random, tier: str, idx: int) -> dict:
     conc = None
     if name in ("shared_threads", "separate_handles"):
         conc = {"n": rng.randint(2, 3), "ops": rng.randint(1, 2), "p": rng.choice([0.02, 0.1, 0.3, 0.6]),
+                "preempt_p": rng.choice([0, 0, 0.005, 0.03]) if name == "shared_threads" else 0,
                 "kinds": [rng.choice(["append", "append", "multi", "delete_file_append"]) for _ in range(6)]}
     return {"backend": "local", "op": name, "setup": setup, "subsets": 2 if tier == "quick" else 8, "conc": conc,
             "materialise": tier != "quick" or idx % 5 == 0, "sub_seed": rng.randrange(1 << 30)}
@@ -115,6 +116,9 @@ def execute(plan: dict, scratch: str, replay: Optional[dict] = None) -> dict:
         pol = core.ReplayPolicy(replay)
     ph = Phase(plan, scratch, "local", seed, pol, start=now + 1.0, max_steps=60000)
     w, sim = ph.world, ph.sim
+    if conc and conc.get("preempt_p"):
+        sim.extra["preempt_p"] = conc["preempt_p"]
+        sim.max_steps = 300000
     os.makedirs(w.root, exist_ok=True)
     sh = Shadow(w.root)
     sh.arm()
